@@ -5,7 +5,9 @@ The CQL binary protocol v4 encoding of values, written from the protocol text (n
 §3 `[bytes]`/`[value]`, §6 "Data Type Serialization Formats", §6.x of v5 for `duration` and Cassandra's
 `VectorType` for vectors) — *independently of the implementation model* `Model/Codec.lean`: no `viewOf`,
 no `lookupLast` / `removeName`, no buffer, no error kinds, its own arithmetic vint and zig-zag and its own
-fixed-width table.  Core Lean only; imports only the big-endian helper `beBytes` and the value types.
+fixed-width table.  Provenance: §3 / §6 of the v4 text by reading; `duration` from the v5 text; the vector
+format and `fixedWidth` are not in either text — they follow Cassandra's `VectorType` as reflected by the
+driver's `type_size_for_vector` (so for vectors this file is only as independent as that table).  Core Lean only; imports only the big-endian helper `beBytes` and the value types.
 
   §3   [bytes]   a 4-byte signed length n, then n bytes if n ≥ 0; n = -1 null, n = -2 not set
   §6.1 ascii / §6.18 varchar  the bytes of the string            §6.3 blob      the bytes
@@ -121,8 +123,9 @@ def elemsOf : CqlVal → Option (List CqlVal)
   | _ => none
 
 mutual
-/-- Content of a non-null value at a type. -/
-def specBody : CqlTy → CqlVal → Option Bytes
+/-- Byte layout of the content of a non-null value at a type (which values ARE values of the type is
+`valOk` below; the protocol encoding `specCell` is the layout of a value of the type). -/
+def layoutBody : CqlTy → CqlVal → Option Bytes
   | t, v =>
     match v with
     | .null => none
@@ -132,48 +135,128 @@ def specBody : CqlTy → CqlVal → Option Bytes
       match t with
       | .native n => specNative n v
       | .list elt => match elemsOf v with
-        | some vs => (catOpt (fun x => specCell elt x) vs).map (fun cells => beBytes 4 vs.length ++ cells)
+        | some vs => (catOpt (fun x => layoutCell elt x) vs).map (fun cells => beBytes 4 vs.length ++ cells)
         | none => none
       | .set elt => match elemsOf v with
-        | some vs => (catOpt (fun x => specCell elt x) vs).map (fun cells => beBytes 4 vs.length ++ cells)
+        | some vs => (catOpt (fun x => layoutCell elt x) vs).map (fun cells => beBytes 4 vs.length ++ cells)
         | none => none
       | .map kt vt => match v with
         | .map kvs =>
-          (catOpt (pairCell (fun k => specCell kt k) (fun x => specCell vt x)) kvs).map
+          (catOpt (pairCell (fun k => layoutCell kt k) (fun x => layoutCell vt x)) kvs).map
             (fun cells => beBytes 4 kvs.length ++ cells)
         | _ => none
       | .vector elt dim => match elemsOf v with
         | some vs =>
-          if vs.length = dim then vectorBody (fun x => specBody elt x) (fixedWidth elt).isSome vs else none
+          if vs.length = dim then vectorBody (fun x => layoutBody elt x) (fixedWidth elt).isSome vs else none
         | none => none
       | .tuple ts => match v with
-        | .tuple fs => if fs.length ≤ ts.length then specTuple ts fs else none
+        | .tuple fs => if fs.length ≤ ts.length then layoutTuple ts fs else none
         | _ => none
       | .udt _ _ fields => match v with
-        | .udt _ _ m => specUdt fields m
+        | .udt _ _ m => layoutUdt fields m
         | _ => none
 /-- `[bytes]` of a value: `-1` for null, `-2` for not-set, else length and content. -/
-def specCell : CqlTy → CqlVal → Option Bytes
+def layoutCell : CqlTy → CqlVal → Option Bytes
   | t, v =>
     match v with
     | .null => some [0xff, 0xff, 0xff, 0xff]
     | .unset => some [0xff, 0xff, 0xff, 0xfe]
-    | _ => (specBody t v).map bytesOf
+    | _ => (layoutBody t v).map bytesOf
 /-- The given fields of a tuple, in order. -/
-def specTuple : List CqlTy → List CqlVal → Option Bytes
+def layoutTuple : List CqlTy → List CqlVal → Option Bytes
   | t :: ts, f :: fs =>
-    match specCell t f, specTuple ts fs with
+    match layoutCell t f, layoutTuple ts fs with
     | some a, some r => some (a ++ r)
     | _, _ => none
   | _, _ => some []
 /-- One `[bytes]` per field of the type, in the type's order. -/
-def specUdt : List (String × CqlTy) → List (String × CqlVal) → Option Bytes
+def layoutUdt : List (String × CqlTy) → List (String × CqlVal) → Option Bytes
   | [], _ => some []
   | (n, t) :: rest, m =>
-    match specCell t (fieldOf n m), specUdt rest m with
+    match layoutCell t (fieldOf n m), layoutUdt rest m with
     | some a, some r => some (a ++ r)
     | _, _ => none
 end
+
+/-! ### the value space: which `CqlVal`s are values of a CQL type
+
+The layout above says where the bytes go; this says what the protocol admits.  The legacy *empty*
+(zero-length) value exists for the natives other than counter and duration (for ascii / text / blob it is the
+empty string); an ascii string is 7-bit; `time` is nanoseconds within one day; a varint has at least one
+byte; a fixed-width vector element has exactly the width of its type (so it cannot be *empty*) and no vector
+element is null / not-set; a tuple value gives at least one and at most all of the fields (a zero-field tuple
+value would be the zero-length cell, i.e. the *empty* value); a UDT value names only fields of the type. -/
+
+def canBeEmpty : CqlTy → Bool
+  | .native .counter => false
+  | .native .duration => false
+  | .native _ => true
+  | _ => false
+
+def nativeOk : NativeTy → CqlVal → Bool
+  | .ascii, .ascii s => s.all (fun b => b < 128)
+  | .ascii, .text s => s.all (fun b => b < 128)
+  | .time, .time x => decide (x.toNat ≤ 86399999999999)
+  | .varint, .varint b => !b.isEmpty
+  | n, v => (specNative n v).isSome
+
+def isNullish : CqlVal → Bool
+  | .null => true
+  | .unset => true
+  | _ => false
+
+mutual
+/-- `v` is a (non-null) value of type `t`. -/
+def valOk : CqlTy → CqlVal → Bool
+  | t, v =>
+    match v with
+    | .null => false
+    | .unset => false
+    | .empty => canBeEmpty t
+    | _ =>
+      match t with
+      | .native n => nativeOk n v
+      | .list elt => match elemsOf v with
+        | some vs => vs.all (fun x => isNullish x || valOk elt x)
+        | none => false
+      | .set elt => match elemsOf v with
+        | some vs => vs.all (fun x => isNullish x || valOk elt x)
+        | none => false
+      | .map kt vt => match v with
+        | .map kvs => kvs.all (fun kv => (isNullish kv.1 || valOk kt kv.1) && (isNullish kv.2 || valOk vt kv.2))
+        | _ => false
+      | .vector elt dim => match elemsOf v with
+        | some vs =>
+          decide (vs.length = dim) && vs.all (fun x => valOk elt x) &&
+            (match fixedWidth elt with
+             | some w => vs.all (fun x => match layoutBody elt x with
+                 | some b => decide (b.length = w)
+                 | none => false)
+             | none => true)
+        | none => false
+      | .tuple ts => match v with
+        | .tuple fs => !fs.isEmpty && decide (fs.length ≤ ts.length) && tupleOk ts fs
+        | _ => false
+      | .udt _ _ fields => match v with
+        | .udt _ _ m => m.all (fun p => fields.any (fun f => f.1 == p.1)) && udtOk fields m
+        | _ => false
+def tupleOk : List CqlTy → List CqlVal → Bool
+  | t :: ts, f :: fs => (isNullish f || valOk t f) && tupleOk ts fs
+  | _, _ => true
+def udtOk : List (String × CqlTy) → List (String × CqlVal) → Bool
+  | [], _ => true
+  | (n, t) :: rest, m => (isNullish (fieldOf n m) || valOk t (fieldOf n m)) && udtOk rest m
+end
+
+/-- `v` may stand in a `[bytes]` position of type `t`: null, not-set, or a value of the type. -/
+def cellOk (t : CqlTy) (v : CqlVal) : Bool := isNullish v || valOk t v
+
+/-- **The CQL v4 encoding** of `v` at type `t` as a `[bytes]`: defined exactly for null, not-set and the
+values of the type. -/
+def specCell (t : CqlTy) (v : CqlVal) : Option Bytes := if cellOk t v then layoutCell t v else none
+
+/-- The content of a value of the type. -/
+def specBody (t : CqlTy) (v : CqlVal) : Option Bytes := if valOk t v then layoutBody t v else none
 
 mutual
 /-- A type whose UDTs have pairwise distinct field names (every CQL type). -/
